@@ -98,9 +98,9 @@ package httpd
 //@   mayPanic
 //@   ensures dispatchOnce: relayCalls == old(relayCalls) + 1
 //@   onpanic noPut: poolPuts == old(poolPuts)
-//@   ghost before call HandlerFunc#1 assert target: store.I != nil && (store.I == mux.routeNotFound || store.I.registered)
-//@   ghost before call HandlerFunc#1 assert ri.status: store.W.Status == 0 && store.R == r
-//@   ghost before call HandlerFunc#1 assert ri.params: len(store.P.K) <= len(store.P.V) && (store.I != mux.routeNotFound ==> len(store.P.K) == len(store.P.V))
-//@   ghost before call HandlerFunc#1 assert ri.nomatch: store.I == mux.routeNotFound && !mux.routeNotFound.registered ==> len(store.P.K) == 0
-//@   ghost after call HandlerFunc#1 set relayCalls = relayCalls + 1
-//@   ghost after call Put#1 set poolPuts = poolPuts + 1
+//@   ghost before call HandlerFunc assert target: store.I != nil && (store.I == mux.routeNotFound || store.I.registered)
+//@   ghost before call HandlerFunc assert ri.status: store.W.Status == 0 && store.R == r
+//@   ghost before call HandlerFunc assert ri.params: len(store.P.K) <= len(store.P.V) && (store.I != mux.routeNotFound ==> len(store.P.K) == len(store.P.V))
+//@   ghost before call HandlerFunc assert ri.nomatch: store.I == mux.routeNotFound && !mux.routeNotFound.registered ==> len(store.P.K) == 0
+//@   ghost after call HandlerFunc set relayCalls = relayCalls + 1
+//@   ghost after call Put set poolPuts = poolPuts + 1
